@@ -48,6 +48,7 @@ Op gen_probe(Rng &r, const std::string &font, size_t maxlen, bool adversarial) {
         for (unsigned i = 0; i < n; ++i) { o.a.push_back(r.below(64)); o.a.push_back(r.chance(1, 2) ? r.below(4) : r.below(300)); }
     }
     o.text = gen_text(r, font, maxlen, adversarial);
+    if (o.a[1] > 0 && r.chance(1, 4)) o.a[1] |= (1 << 20);     // hinted font: advances come from a callback (a pure function of the glyph id)
     return o;
 }
 
@@ -104,7 +105,7 @@ static Plan gen_shape(u64 seed) {
         }
     }
     p.ops.push_back(mf);
-    if (r.chance(1, 2)) p.ops.push_back(mk("make_font", {0, i64(16 * (1 + r.below(200)))}));
+    if (r.chance(1, 2)) p.ops.push_back(mk("make_font", {0, i64(16 * (1 + r.below(200))), r.chance(1, 3) ? 1 : 0}));    // a[2]: hinted
     unsigned nseg = g_tier ? 4 + r.below(37) : 3 + r.below(8);
     for (unsigned i = 0; i < nseg; ++i) {
         Op o = gen_probe(r, font, text_max(r));
